@@ -268,6 +268,10 @@ def generate(rng, tier):
         ops, _ = gen.ops(start, 0, rng.randint(1, 6))
         actors.append({"name": gen.fresh("a"), "ops": ops})
     scenario = {"start": start, "resources": {}, "actors": actors}
+    if rng.random() < 0.25:
+        # all waits for the same (comparison, date) use one condition object, like a module-level
+        # `DEADLINE = time >= 10`: re-used after being abandoned (until cut-off) and by several
+        scenario["share_conditions"] = True
     case = {"property": ID, "scenario": scenario, "plan": [],
             "config": {"waitq": rng.choice(["heap", "sd"])}}
     if not valid(case):        # generator and model disagree: never run such a program
